@@ -2,6 +2,8 @@ package main
 
 import (
 	"context"
+	"os"
+	"path/filepath"
 	"encoding/json"
 	"fmt"
 	"io"
@@ -26,13 +28,37 @@ type IVec struct {
 	Es   []Ent `json:"es"`
 }
 type MRef struct {
-	Kind string `json:"kind"` // inline, stored, other
+	Kind string `json:"kind"` // inline, stored, file (objectstorage file:// reference to a CSV with this text), other
 	M    *IMat  `json:"m,omitempty"`
 	ID   int    `json:"id,omitempty"`
+	Text string `json:"text,omitempty"`
 }
 type VRef struct {
-	Kind string `json:"kind"` // inline, other
+	Kind string `json:"kind"` // inline, file, other
 	V    *IVec  `json:"v,omitempty"`
+	Text string `json:"text,omitempty"`
+}
+
+// file references: the CSV text is written under the run's scratch directory when the request is rendered
+var (
+	refDir string
+	refSeq int
+)
+
+func refFile(text string) string {
+	if refDir == "" {
+		d, err := os.MkdirTemp(gOutDir, "refs-")
+		if err != nil {
+			panic(err)
+		}
+		refDir = d
+	}
+	refSeq++
+	p := filepath.Join(refDir, fmt.Sprintf("ref-%d.csv", refSeq))
+	if err := os.WriteFile(p, []byte(text), 0o644); err != nil {
+		panic(err)
+	}
+	return fmt.Sprintf(`{"scheme":"objectstorage","url":"file://%s"}`, p)
 }
 type OReq struct {
 	Local   MRef     `json:"local"`
@@ -57,6 +83,7 @@ func newOapiServer() *echo.Echo {
 	if err != nil {
 		panic(err)
 	}
+	srv.UseFileURI = true // as `eigentrust serve --use-file-uri`: objectstorage file:// references are loaded
 	openapi.RegisterHandlersWithBaseURL(e, openapi.NewStrictHandler(srv, nil), "/basic/v1")
 	return e
 }
@@ -116,12 +143,17 @@ func (r MRef) json() string {
 		return r.M.json()
 	case "stored":
 		return fmt.Sprintf(`{"scheme":"stored","id":"m%d"}`, r.ID)
+	case "file":
+		return refFile(r.Text)
 	}
 	return `{"scheme":"bogus"}`
 }
 func (r VRef) json() string {
-	if r.Kind == "inline" {
+	switch r.Kind {
+	case "inline":
 		return r.V.json()
+	case "file":
+		return refFile(r.Text)
 	}
 	return `{"scheme":"bogus"}`
 }
@@ -177,6 +209,8 @@ func (r MRef) coq() string {
 		return "(RInline " + r.M.coq() + ")"
 	case "stored":
 		return fmt.Sprintf("(RStored %d)", r.ID)
+	case "file":
+		return "(RFile " + cCsv(r.Text) + ")"
 	}
 	return "ROther"
 }
@@ -184,8 +218,11 @@ func (r *VRef) coq() string {
 	if r == nil {
 		return "None"
 	}
-	if r.Kind == "inline" {
+	switch r.Kind {
+	case "inline":
 		return "(Some (VIn " + r.V.coq() + "))"
+	case "file":
+		return "(Some (VFile " + cCsv(r.Text) + "))"
 	}
 	return "(Some VOth)"
 }
@@ -326,6 +363,49 @@ func reqVec(r *Rng, n int) IVec {
 	return v
 }
 
+// matCsv / vecCsv: the server-side CSV form of an inline collection (header i,j,v / i,v), optionally damaged
+func matCsv(r *Rng, m IMat, damage bool) string {
+	var sb strings.Builder
+	sb.WriteString("i,j,v\n")
+	for _, e := range m.Es {
+		fmt.Fprintf(&sb, "%d,%d,%s\n", e.R, e.C, jf(float64(e.V)))
+	}
+	return damageCsv(r, sb.String(), damage, "i,j,v")
+}
+func vecCsv(r *Rng, v IVec, damage bool) string {
+	var sb strings.Builder
+	sb.WriteString("i,v\n")
+	for _, e := range v.Es {
+		fmt.Fprintf(&sb, "%d,%s\n", e.I, jf(float64(e.V)))
+	}
+	return damageCsv(r, sb.String(), damage, "i,v")
+}
+func damageCsv(r *Rng, t string, damage bool, header string) string {
+	if !damage {
+		return t
+	}
+	switch r.Intn(9) {
+	case 0:
+		return strings.Replace(t, header, strings.ToUpper(header), 1)
+	case 1:
+		return strings.TrimPrefix(t, header+"\n")
+	case 2:
+		return t + "-1" + strings.Repeat(",0", strings.Count(header, ",")) + "\n"
+	case 3:
+		return t + "0" + strings.Repeat(",1", strings.Count(header, ",")+1) + "\n" // one field too many
+	case 4:
+		return t + "\"0,1,2\n" // unterminated quote
+	case 5:
+		return header + "\n"
+	case 6:
+		return ""
+	case 7:
+		return t + "x" + strings.Repeat(",1", strings.Count(header, ",")) + "\n"
+	default:
+		return t + "0" + strings.Repeat(",nope", strings.Count(header, ",")) + "\n"
+	}
+}
+
 func genC03(r *Rng, tier string) []*Case {
 	var cs []*Case
 	reps := 6
@@ -340,6 +420,8 @@ func genC03(r *Rng, tier string) []*Case {
 			if r.Chance(25) {
 				q.Setup = []IMat{lm}
 				q.Local = MRef{Kind: "stored", ID: 0}
+			} else if r.Chance(12) {
+				q.Local = MRef{Kind: "file", Text: matCsv(r, lm, r.Chance(30))}
 			} else {
 				q.Local = MRef{Kind: "inline", M: &lm}
 			}
@@ -350,6 +432,9 @@ func genC03(r *Rng, tier string) []*Case {
 					v.Es = nil // all-zero pre-trust = uniform
 				}
 				q.Pre = &VRef{Kind: "inline", V: &v}
+				if r.Chance(10) {
+					q.Pre = &VRef{Kind: "file", Text: vecCsv(r, v, r.Chance(30))}
+				}
 			}
 			if pat&2 != 0 {
 				v := reqVec(r, rel())
